@@ -3,7 +3,7 @@ from checks import krill_common as kc
 
 PID = "C01"
 LEVEL = "model_checking"
-THEMES = "chain,roll,life,agg".split(",")
+THEMES = "chain,roll,life,agg,aspa".split(",")
 NEEDED = "Settled,RoaAdd,ChildRes".split(",")
 
 RULE = (
@@ -18,11 +18,40 @@ RULE = (
     "two kinds of API operations")
 
 
+def _a(a, **kw):
+    d = {"a": a}
+    d.update(kw)
+    return d
+
+
+# the switch between one object per authorisation and one per origin AS,
+# crossed by updates that add and remove at once (aggregation above one
+# authorisation, so that three authorisations suffice)
+DIRECTED = [
+    {"agg": 1, "deagg": 1, "actions": [
+        _a("AddCa", c="B", p="A", res=["p1", "p2"]), _a("Settle"),
+        _a("RoaAdd", c="B", r=["p1", "a1"]), _a("Settle"),
+        _a("RoaDelta", c="B", add=["p2|a1", "p2|a2"], **{"del": ["p1|a1"]}),
+        _a("Settle"),
+        _a("RoaDelta", c="B", add=["p1|a1"], **{"del": ["p2|a1", "p2|a2"]}),
+        _a("Settle"), _a("RoaDel", c="B", r=["p1", "a1"]), _a("Settle")]},
+    {"agg": 1, "deagg": 2, "actions": [
+        _a("AddCa", c="B", p="A", res=["p1", "p2"]), _a("Settle"),
+        _a("RoaDelta", c="B", add=["p1|a1", "p2|a1"], **{"del": []}),
+        _a("Settle"),
+        _a("RoaDelta", c="B", add=["p2|a2"], **{"del": ["p1|a1"]}),
+        _a("Settle"),
+        _a("RoaDelta", c="B", add=[], **{"del": ["p2|a1", "p2|a2"]}),
+        _a("Settle"), _a("RoaAdd", c="B", r=["p1", "a1"]), _a("Settle")]},
+]
+
+
 def run(tier, seed):
     return kc.run_property(
         PID, LEVEL, tier, seed, THEMES,
-        quick_num=8 if len(THEMES) > 1 else 24, thorough_num=250,
-        assumptions=kc.COMMON_ASSUMPTIONS, rule=RULE, needed_events=NEEDED)
+        quick_num=6 if len(THEMES) > 1 else 24, thorough_num=250,
+        assumptions=kc.COMMON_ASSUMPTIONS, rule=RULE, needed_events=NEEDED,
+        directed=DIRECTED)
 
 
 def replay(path, seed):
